@@ -344,12 +344,12 @@ func TestC18Concurrent(t *testing.T) {
 		for i := range ret {
 			for j, s := range ret[i] {
 				if seen[s] {
-					hC18.Fail(t, "TestC18", c, "%d goroutines x %d sends: sequence %d was returned twice", g, m, s)
+					hC18.Fail(t, "TestC18Concurrent", c, "%d goroutines x %d sends: sequence %d was returned twice", g, m, s)
 				}
 				seen[s] = true
 				all = append(all, s)
 				if j > 0 && s <= ret[i][j-1] {
-					hC18.Fail(t, "TestC18", c, "goroutine %d got sequence %d after %d: not increasing", i, s, ret[i][j-1])
+					hC18.Fail(t, "TestC18Concurrent", c, "goroutine %d got sequence %d after %d: not increasing", i, s, ret[i][j-1])
 				}
 			}
 		}
@@ -358,27 +358,27 @@ func TestC18Concurrent(t *testing.T) {
 		for n := 0; n < g*m; n++ {
 			msgs, err := cl.Receive(false, rawParser)
 			if err != nil {
-				hC18.Fail(t, "TestC18", c, "Receive of reply %d of %d: %v", n, g*m, err)
+				hC18.Fail(t, "TestC18Concurrent", c, "Receive of reply %d of %d: %v", n, g*m, err)
 			}
 			d := msgs[0].Data
 			if len(d) < 39 {
-				hC18.Fail(t, "TestC18", c, "short kernel reply (%d bytes)", len(d))
+				hC18.Fail(t, "TestC18Concurrent", c, "short kernel reply (%d bytes)", len(d))
 			}
 			outer, inner := ne.Uint32(d[8:]), ne.Uint32(d[28:])
 			if outer != inner {
-				hC18.Fail(t, "TestC18", c, "kernel reply sequence %d but echoed request sequence %d", outer, inner)
+				hC18.Fail(t, "TestC18Concurrent", c, "kernel reply sequence %d but echoed request sequence %d", outer, inner)
 			}
 			// the payload identifies the sender: its sequence must be one that goroutine was given
 			gi, gj := int(d[36]), int(d[37])
 			if gi >= g || gj >= m || ret[gi][gj] != inner {
-				hC18.Fail(t, "TestC18", c, "request %d of goroutine %d went out with sequence %d, Send returned %v", gj, gi, inner, ret[gi])
+				hC18.Fail(t, "TestC18Concurrent", c, "request %d of goroutine %d went out with sequence %d, Send returned %v", gj, gi, inner, ret[gi])
 			}
 			wire[inner]++
 		}
 		sort.Slice(all, func(a, b int) bool { return all[a] < all[b] })
 		for _, s := range all {
 			if wire[s] != 1 {
-				hC18.Fail(t, "TestC18", c, "sequence %d returned by Send was seen %d times on the wire", s, wire[s])
+				hC18.Fail(t, "TestC18Concurrent", c, "sequence %d returned by Send was seen %d times on the wire", s, wire[s])
 			}
 		}
 		cl.Close()
